@@ -112,7 +112,9 @@ class Rebalancing:
                 if quantity == 0:
                     # Imbalance is smaller than one lot. Nothing to trade.
                     continue
-            if abs(weights[contract]) < self.margin and contract in self.allocation:
+            # An imbalance valued at exactly zero (zero price) is dropped from
+            # the weights by _Allocation: its weight is 0.
+            if abs(weights.get(contract, 0.)) < self.margin and contract in self.allocation:
                 # Imbalance weight is smaller than margin. Skip to save costs.
                 continue
             trade = Trade(
